@@ -28,6 +28,8 @@ def load_contracts():
     mods = sorted(os.path.basename(p)[:-3] for p in glob.glob(os.path.join(ROOT, "contracts", "c_*.py")))
     for m in mods:
         importlib.import_module("contracts." + m)
+    for m in filter(None, os.environ.get("PYVC_EXTRA_CONTRACTS", "").split(",")):
+        importlib.import_module(m)      # developer: work-in-progress contract files that the registered checks do not load
     return REGISTRY
 
 
@@ -67,6 +69,13 @@ def sha_of_key(key):
         return hashlib.sha256(inspect.getsource(fn).encode()).hexdigest()
     except Exception:
         return ""
+
+
+def contract_sha(c):
+    """fingerprint of the clauses of a contract: an inventory entry recorded for other clauses is stale and is ignored"""
+    txt = repr((c.requires, sorted(c.variant_requires.items()), c.ensures, sorted(c.variant_ensures.items()),
+                sorted((k, repr(sorted(v.items(), key=str))) for k, v in c.loops.items()), sorted(c.hints.items()), sorted(c.ghost.items()), c.raises and [(e.__name__, w) for e, w in c.raises]))
+    return hashlib.sha256(txt.encode()).hexdigest()[:16]
 
 
 def run_property(pid, tier="quick", seed=0, jobs=None, only=None):
@@ -109,8 +118,15 @@ def finish(pid, tier, seed, reg, results, wall):
     # ---- baseline inventory (vacuity / shrinkage guard)
     inv_path = os.path.join(ROOT, "baseline", "obligations.json")
     inventory = {}
-    if os.path.exists(inv_path):
+    if os.path.exists(inv_path) and not os.environ.get("PYVC_NO_INVENTORY"):
         inventory = json.load(open(inv_path)).get(pid, {})
+        # entries recorded for a different version of the contract's clauses are stale: ignored (regenerate with tools/write_inventory.sh)
+        stale = [fv for fv, ent in inventory.items()
+                 if ent.get("contract_sha") and fv.split("[")[0] in reg.contracts and ent["contract_sha"] != contract_sha(reg.contracts[fv.split("[")[0]])]
+        for fv in stale:
+            del inventory[fv]
+        if stale:
+            print("note: %d inventory entries are stale (contract clauses changed since they were recorded) and were ignored" % len(stale))
     inv_problems = []
     by_fv = {}
     for a in agg.values():
@@ -306,6 +322,9 @@ def finish(pid, tier, seed, reg, results, wall):
         pid, tier, n_ob, ev["coverage"]["path_vcs"], n_dis, len(results), wall))
     slow = sorted(results, key=lambda r: -r.get("secs", 0))[:3]
     print("slowest: " + ", ".join("%s[%s] %.0fs" % (r["key"].split(":")[-1], r["variant"], r.get("secs", 0)) for r in slow))
+    slow_obs = sorted(((a["secs"], a["name"]) for a in agg.values() if a["secs"] > 5.0), reverse=True)[:8]
+    if slow_obs:
+        print("slow obligations (>5s summed over paths): " + "; ".join("%.0fs %s" % (t_, n_.split(":", 1)[1]) for t_, n_ in slow_obs))
     for r in errors:
         print("CHECKER-ERROR %s[%s]: %s" % (r["key"], r["variant"], r["message"][-1500:]))
     for m in inv_problems:
@@ -335,7 +354,9 @@ def write_inventory(pid, ev):
     for f in ev["coverage"]["functions_under_contract"]:
         for v in f["variants"]:
             fv = "%s[%s]" % (f["function"], v)
+            from pyvc.contracts import REGISTRY as _REG
             cur[fv] = dict(sha256=f["sha256"], obligations=sorted(n for n in names if n.startswith(fv + ":")),
+                           contract_sha=contract_sha(_REG.contracts[f["function"]]),
                            deps={k: h for k, h in deps.items() if h and k != f["function"]})
     inv[pid] = cur
     with open(inv_path, "w") as fh:
